@@ -245,6 +245,10 @@ func (p *Prog) DeepSourcesStop(v ssa.Value, depth int, throughCallers bool, stop
 					}
 				}
 			case *ssa.Call:
+				if arg, ok := CopyHelperArg(x); ok {
+					walk(arg, fr, depth)
+					continue
+				}
 				if depth > 0 {
 					if callee := singleModuleCallee(p, x); callee != nil && !calleeOnStack(callee, fr) && callee.Signature.Results().Len() == 1 {
 						for _, ret := range Returns(callee) {
